@@ -252,7 +252,7 @@ func init() {
 }
 
 var strPayloads = [][]byte{[]byte(""), []byte("a"), []byte("b"), []byte("a"), []byte("k"), []byte("<&>"), []byte("\xff"), []byte("é"), []byte("\x00"), []byte(" "), []byte("a\"b"), []byte("name")}
-var rawPayloads = [][]byte{[]byte("null"), []byte("1"), []byte(`"a"`), []byte(`"b"`), []byte("[]"), []byte("{}"), []byte(`{"a":1}`), []byte(`{"a":1,"a":2}`), []byte("[1,2]"), []byte(" 1 "), []byte(""), []byte("{"), []byte("1 2"), []byte("\"\xff\""), []byte("nul"), []byte("[1,]"), []byte(`"a`), []byte("]"), []byte(`"\ud800"`), []byte("01"), []byte(`{"a":{"b":[1,{"c":null}]}}`), []byte("\n[ ]\n"), []byte("tru"), []byte("-"), []byte(`"<"`)}
+var rawPayloads = [][]byte{[]byte("null"), []byte("1"), []byte(`"a"`), []byte(`"b"`), []byte("[]"), []byte("{}"), []byte(`{"a":1}`), []byte(`{"a":1,"a":2}`), []byte("[1,2]"), []byte(" 1 "), []byte(""), []byte("{"), []byte("1 2"), []byte("\"\xff\""), []byte("nul"), []byte("[1,]"), []byte(`"a`), []byte("]"), []byte(`"\ud800"`), []byte("01"), []byte(`{"a":{"b":[1,{"c":null}]}}`), []byte("\n[ ]\n"), []byte("tru"), []byte("-"), []byte(`"<"`), []byte("\"\u2028\""), []byte("\"a\u2029<\\u2028\""), []byte("{\"\u2028\":\"\u2029\"}")}
 
 func genOps(t *rapid.T) []tv.Val {
 	// mostly well-formed shapes with occasional disorder
